@@ -83,6 +83,27 @@ def synthetic_response(kind, params):
                 "missing": 0,
             }
         }
+    if kind == "big_cat_x_cat":
+        # larger than anything in the corpus (its biggest slice has 340 cells): n x m (x k) cells
+        n, m, k = params["n"], params["m"], params.get("k", 0)
+
+        def cat_dim(alias, size):
+            cats = [{"id": i + 1, "missing": False, "name": "%s %d" % (alias, i + 1), "numeric_value": i + 1}
+                    for i in range(size)]
+            cats.append({"id": -1, "missing": True, "name": "No Data", "numeric_value": None})
+            return {"references": {"alias": alias, "name": alias.title()},
+                    "type": {"class": "categorical", "categories": cats, "ordinal": False}}
+
+        dims = ([cat_dim("tabs", k)] if k else []) + [cat_dim("rowvar", n), cat_dim("colvar", m)]
+        total = 1
+        for d in dims:
+            total *= len(d["type"]["categories"])
+        counts = [rnd.randint(0, 60) for _ in range(total)]
+        wcounts = [c * 1.25 for c in counts] if params.get("weighted") else list(counts)
+        return {"result": {"dimensions": dims, "counts": counts,
+                           "measures": {"count": {"data": wcounts, "n_missing": 0, "metadata": {}}},
+                           "n": sum(counts), "missing": 0, "filtered": {"unweighted_n": sum(counts), "weighted_n": sum(wcounts)},
+                           "unfiltered": {"unweighted_n": sum(counts), "weighted_n": sum(wcounts)}}}
     raise ValueError("unknown synthetic kind %r" % (kind,))
 
 
@@ -124,6 +145,12 @@ def apply_perturbation(resp, p):
         m = res.get("measures", {}).get(p[1])
         if m and isinstance(m.get("metadata"), dict):
             m["metadata"].pop("references", None)
+    elif kind == "bad_datetime":  # ["bad_datetime", raw_dim_idx, elem_idx]: one value in another precision
+        _k, di, ei = p
+        els = res["dimensions"][di]["type"].get("elements") or []
+        if ei < len(els) and isinstance(els[ei].get("value"), str):
+            v = els[ei]["value"]
+            els[ei]["value"] = v[:10] if len(v) > 10 else v + "-01"
     elif kind == "resolution":  # ["resolution", raw_dim_idx, "2M"]: a rolled-up datetime resolution
         _k, di, resv = p
         sub = res["dimensions"][di]["type"].get("subtype")
@@ -255,10 +282,34 @@ def trimmed_response(base, di, pos):
     return dict(base, value=new_inner) if "value" in base and base is not inner else new_inner
 
 
-def arg_texts(scenario):
-    """Pristine JSON text per argument; derived arguments borrow from their bases."""
+def apply_edit(obj, edit):
+    """F8: what the CALLER does to its own argument between two renders (in place). Applied
+    alike to the live shared object and to the pristine content the reference is built from."""
+    kind = edit[0]
+    if kind == "hide":  # ["hide", axis, key]
+        obj.setdefault(edit[1], {}).setdefault("elements", {})[edit[2]] = {"hide": True}
+    elif kind == "prune":  # ["prune", axis, bool]
+        obj.setdefault(edit[1], {})["prune"] = edit[2]
+    elif kind == "order":  # ["order", axis, ids]
+        obj.setdefault(edit[1], {})["order"] = {"type": "explicit", "element_ids": list(edit[2])}
+    elif kind == "retitle":  # ["retitle", raw_dim_idx, name]
+        dm = _inner(obj)["result"]["dimensions"][edit[1]]
+        dm.setdefault("references", {})["name"] = edit[2]
+    elif kind == "missing":  # ["missing", raw_dim_idx, cat_idx]
+        cats = _inner(obj)["result"]["dimensions"][edit[1]]["type"].get("categories") or []
+        if edit[2] < len(cats):
+            cats[edit[2]]["missing"] = True
+    else:
+        raise ValueError("unknown edit %r" % (edit,))
+    return obj
+
+
+def arg_texts(scenario, base_texts=None):
+    """Pristine JSON text per argument; derived arguments borrow from their bases.
+    `base_texts` overrides the texts of base arguments (after caller edits, F8)."""
     args = scenario["args"]
-    texts = {aid: arg_text(ad) for aid, ad in args.items()
+    texts = {aid: (base_texts[aid] if base_texts and aid in base_texts else arg_text(ad))
+             for aid, ad in args.items()
              if "view_of" not in ad and "compose" not in ad and "trim_of" not in ad}
     for aid, ad in args.items():
         if "view_of" in ad:
@@ -275,6 +326,11 @@ def arg_texts(scenario):
                 progressed = True
         if not progressed:
             raise ValueError("cyclic composed arguments %r" % (pending,))
+    if base_texts:
+        # derived arguments that were detached from their bases (persisted and loaded back, or
+        # left holding the old object when their base was) keep the content they had then
+        for aid, t in base_texts.items():
+            texts[aid] = t
     return texts
 
 
@@ -283,6 +339,12 @@ def materialise_arg(scenario, texts, aid, get_arg, argdef=None):
     supplies for their bases, so that the sharing relation holds inside one family of
     objects (the shared world, a private client's copies, one reference evaluation)."""
     ad = argdef or scenario["args"][aid]
+    if aid in (texts.get("__detached__") or ()):
+        # persisted and loaded back (or left behind when its base was): a plain copy now
+        if "view_of" in ad:
+            return toggled_envelope(json.loads(texts[aid]))
+        if "compose" in ad or "trim_of" in ad:
+            return json.loads(texts[aid])
     if "view_of" in ad:
         base = get_arg(ad["view_of"])
         if isinstance(base, dict):
@@ -344,6 +406,8 @@ def arg_text(argdef):
         return json.dumps(d, separators=(",", ":"))
     if kind == "bad":
         return None
+    if kind == "nparray":
+        return json.dumps(argdef["value"])
     raise ValueError(kind)
 
 
@@ -356,6 +420,11 @@ def toggled_envelope(d):
 def materialise(argdef, text):
     """A brand-new Python object for this argument, in its declared form."""
     kind = argdef["kind"]
+    if kind == "nparray":  # a population handed over as a numpy value (0-d or one-element array)
+        import numpy as np
+
+        v = json.loads(text)
+        return np.array(v, dtype=np.float64) if argdef.get("shape", "0d") == "0d" else np.array([v], dtype=np.float64)
     if kind == "bad":
         return {
             "not-json": "{this is not json",
@@ -396,15 +465,20 @@ def reload_object(obj, mode):
     return copy.deepcopy(obj), "deepcopy"
 
 
+def _pop_arg(spec):
+    p = spec.get("population")
+    return [p["arg"]] if isinstance(p, dict) and "arg" in p else []
+
+
 def spec_arg_ids(spec):
     if spec["type"] == "cube":
-        return [a for a in (spec["response"], spec.get("transforms")) if a]
+        return [a for a in (spec["response"], spec.get("transforms")) if a] + _pop_arg(spec)
     out = []
     for r, t in spec["members"]:
         out.append(r)
         if t:
             out.append(t)
-    return out
+    return out + _pop_arg(spec)
 
 
 def construct(spec, get_arg):
@@ -416,7 +490,8 @@ def construct(spec, get_arg):
         if spec.get("transforms"):
             kwargs["transforms"] = get_arg(spec["transforms"])
         if "population" in spec:
-            kwargs["population"] = spec["population"]
+            p = spec["population"]
+            kwargs["population"] = get_arg(p["arg"]) if isinstance(p, dict) and "arg" in p else p
         if "min_base" in spec:
             kwargs["mask_size"] = spec["min_base"]
         if spec.get("cube_idx") is not None:
@@ -424,4 +499,7 @@ def construct(spec, get_arg):
         return Cube(get_arg(spec["response"]), **kwargs)
     responses = [get_arg(r) for r, _t in spec["members"]]
     transforms = [get_arg(t) if t else {} for _r, t in spec["members"]]
-    return CubeSet(responses, transforms, spec.get("population"), spec.get("min_base", 0))
+    p = spec.get("population")
+    if isinstance(p, dict) and "arg" in p:
+        p = get_arg(p["arg"])
+    return CubeSet(responses, transforms, p, spec.get("min_base", 0))
